@@ -156,7 +156,7 @@ LOOKALIKES = ["true", "false", "null", "True", "NULL", "yes", "no", "on", "off",
               "", " ", "'q'", '"q"', "a#b", "a #b", "#c", "@x", "`y", "%z", "&a", "*a", "!t", "|", ">", "?", "? a", "? x", "{? : 1}", "[? a]", "{?}", "? [a]", "- a", "-a",
               "a\nb", "tab\tx", "été", "☃", "2024-01-01", "12:30:00", "1+1", "${x}", "${oc.env:HOME}", "$x",
               "std.thisFile", "a.b", "a=b", "app=web", "a=b=c", "http://h/q?a=1&b=2", "dGVzdA==", "k=v,x=y", "=x", "x=", "a:b", "x#y",
-              "p, q", "key: a=b", "x,y", "None", "none", "NaN", "Infinity", "0.1", "-0", "-0.0", "1 2"]
+              "p, q", "key: a=b", "notes.txt", "./data.yaml", "x,y", "None", "none", "NaN", "Infinity", "0.1", "-0", "-0.0", "1 2"]
 WORDS = ["a", "b", "abc", "x_y", "k1", "Hello", "zed"]
 KEYS = [["k"], ["my_key"], ["g", "k"], ["g", "my_key"], ["a", "b", "c"], ["grp_x", "sub", "leaf_key"], ["items"], ["g", "values"]]
 PREFIXES = ["APP", "my-app", True, False]
@@ -377,8 +377,16 @@ def make_case(rng, t, v, modes=None, key=None):
     if t[0] == "dict" and t[1] is False and isinstance(v, dict) and v.get("d") and \
             all(re.fullmatch(r"[A-Za-z_][A-Za-z0-9_]*", k) for k, _ in v["d"]) and not CLASH & {k for k, _ in v["d"]}:
         items = [[k, top_text(x)] for k, x in v["d"]]
-    return {"items": items, "ty": t, "key": key, "hyphen": rng.random() < 0.3 and any("_" in k for k in key), "prefix": rng.choice(PREFIXES),
-            "val": v, "text": top_text(v), "docs": make_docs(key, v), "modes": modes}
+    docs_extra = {}
+    mixed = len(key) >= 2 and rng.random() < 0.5
+    if mixed:
+        inner = json_text(v)
+        for k in reversed(key[1:]):
+            inner = "{%s: %s}" % (json.dumps(k), inner)
+        docs_extra["json_mixed"] = "{%s: %s, %s: 4}" % (json.dumps(key[0]), inner, json.dumps(key[0] + ".zz.deep"))
+    enable_path = bool(items) and rng.random() < 0.5
+    return {"mixed": mixed, "enable_path": enable_path, "docs_extra": docs_extra, "items": items, "ty": t, "key": key, "hyphen": rng.random() < 0.3 and any("_" in k for k in key), "prefix": rng.choice(PREFIXES),
+            "val": v, "text": top_text(v), "docs": dict(make_docs(key, v), **docs_extra), "modes": modes}
 
 
 def known_cases(rng):
@@ -495,7 +503,7 @@ def generate(rng, tier):
     cases.append(make_case(rng, ["any"], {"l": [{"f": "19974.0"}, False]}, modes=["yaml", "jsonnet"], key=["g", "k"]))
     cases.append(make_case(rng, ["set", ["int"]], {"l": [{"i": "3"}, {"i": "1"}]}, key=["items"]))
     cases.append(make_case(rng, ["enum", ["a", "b"]], "a", key=["g", "values"]))
-    n = 300 if tier == "quick" else 2000
+    n = 220 if tier == "quick" else 2000
     # every look-alike string at a str-typed position, and at the scalar types
     for s in LOOKALIKES + WORDS:
         cases.append(make_case(rng, ["str"], s))
@@ -522,9 +530,9 @@ def generate(rng, tier):
         if rng.random() < 0.3:
             c["after"] = rng.choice(['{"other": "not-an-int"}', "other: [1]\n", "{a: ["])
         cases.append(c)
-    for _ in range(60 if tier == "quick" else 300):
+    for _ in range(40 if tier == "quick" else 300):
         cases.append(gen_hist(rng, rng.choice(MODES)))
-    for _ in range(50 if tier == "quick" else 150):
+    for _ in range(35 if tier == "quick" else 150):
         cases.append(gen_sub(rng, list(MODES) if tier == "thorough" and rng.random() < 0.3 else ["yaml", rng.choice(MODES[1:])]))
     return cases
 
@@ -649,7 +657,7 @@ def g_obs(o):
     return "Crashed"
 
 
-CHANNELS = {"argv_eq": "ChArgv", "argv_sp": "ChArgv", "argv_nested_eq": "ChArgv", "argv_nested_sp": "ChArgv", "env": "ChEnv", "env_args": "ChEnv", "object_nested": "ChObject",
+CHANNELS = {"object_mixed": "ChObject", "argv_eq": "ChArgv", "argv_sp": "ChArgv", "argv_nested_eq": "ChArgv", "argv_nested_sp": "ChArgv", "env": "ChEnv", "env_args": "ChEnv", "object_nested": "ChObject",
             "object_dotted": "ChObject", "string": "ChDoc", "path": "ChDoc", "cfgfile": "ChDoc", "cfgstr": "ChDoc",
             "default_config": "ChDoc", "cfgenv": "ChCfgEnv"}
 
@@ -813,6 +821,13 @@ def shrink(case):
         c = dict(c)
         c["text"] = top_text(c["val"])
         c["docs"] = make_docs(c["key"], c["val"])
+        if c.get("mixed") and len(c["key"]) >= 2:
+            inner = json_text(c["val"])
+            for k in reversed(c["key"][1:]):
+                inner = "{%s: %s}" % (json.dumps(k), inner)
+            c["docs"]["json_mixed"] = "{%s: %s, %s: 4}" % (json.dumps(c["key"][0]), inner, json.dumps(c["key"][0] + ".zz.deep"))
+        else:
+            c["mixed"] = False
         if c.get("items"):
             c["items"] = [[k, top_text(x)] for k, x in c["val"].get("d", [])] or None
         return c
